@@ -383,9 +383,10 @@ class BuildCase:
                         walk = set(x for x in s.ddouts[e] if x in pw or x in tw)
                         if k == 0:
                             # dyndep_walk: AddSubTarget from the dyndep-discovered inputs of the bound edges that are in
-                            # the plan; it stops at edges already in want_ (not at all for kWantToFinish) and recurses
-                            # through the entries it inserts.  Entries inserted by AddTarget for validation nodes are
-                            # NOT in the walk.
+                            # the plan, and (since "fix: schedule validation targets discovered by a mid-build dyndep
+                            # load") from the validation nodes the re-scan met; it stops at edges already in want_ (not
+                            # inserted at all when kWantToFinish) and recurses through the entries it inserts.  So every
+                            # new want_ entry is on the walk, together with the not-yet-scheduled producers of its inputs.
                             addset = {x for x, _ in added}; seen = set()
                             def visit(x):
                                 if x in pw:
@@ -397,6 +398,7 @@ class BuildCase:
                             for b in roots:
                                 for ent in s.gins[b]:
                                     if ent.endswith('@%d' % b): visit(int(ent.split('@')[0]))
+                            for x, _ in added: visit(x)
                             res[e] = (dirty, ready, added, sorted(walk))
                         else:
                             res[e] = ([], [], [], sorted(walk))
